@@ -19,7 +19,7 @@ CHECKS = {
    technique="runtime monitoring: reference log-record model over generated stderr/stdout byte streams, race detector on"),
  "C17": dict(
    category="exploration",
-   text="Runtime monitor: for 96 configuration x 6 ambient-environment combinations per launch method, plus user Cmd.Env entries that collide with the control variables, the environment handed to a custom runner and the environment actually received by a real child (plus its stdin identity) are captured and compared, variable by variable, with what the client configuration determines; end-to-end cases launch a real serving plugin from a host that carries PLUGIN_* variables and require the configured mode to work.",
+   text="Runtime monitor: for 96 configuration x 6 ambient-environment combinations per launch method, plus user Cmd.Env entries that collide with the control variables or are a copy of the host's whole environment, the environment handed to a custom runner and the environment actually received by a real child (plus its stdin identity) are captured and compared, variable by variable, with what the client configuration determines; end-to-end cases launch a real serving plugin from a host that carries PLUGIN_* variables and require the configured mode to work.",
    design_ref="DESIGN.md section 3, C17",
    note="Effective environment computed as os/exec does (last duplicate wins); empty value = absent; host child's stdin is a distinctive regular file so that stdin pass-through is observable.",
    technique="runtime monitoring: environment capture at the runner boundary and in a real child, set-comparison oracle"),
@@ -37,7 +37,7 @@ CHECKS = {
    technique="runtime monitoring: /proc process-state monitor over enumerated start-failure causes"),
  "C06": dict(
    category="exploration",
-   text="Runtime monitor: rounds of 1-64 concurrently outstanding distinct ids on a real in-process net/rpc plugin connection (both directions, accept-first/dial-first, gaps inside the window, ids around the uint32 wrap, concurrent Dispense traffic incl. dispenses whose reserved id crosses the wrap, seeded jitter at the mux hook points, race detector on); each end records the unique token and PRNG payload it read; the offline oracle checks the dial(id)<->accept(id) bijection, byte-exact payloads, no failure inside the window, and that every Dispense reaches a distinct server object of the requested name.",
+   text="Runtime monitor: rounds of 1-64 concurrently outstanding distinct ids on a real in-process net/rpc plugin connection (both directions, accept-first/dial-first, gaps inside the window, ids around the uint32 wrap, an Accept held (hook point) between pick-up and acknowledgement across the expiry instant of the parked dial, concurrent Dispense traffic incl. dispenses whose reserved id crosses the wrap, seeded jitter at the mux hook points, race detector on); each end records the unique token and PRNG payload it read; the offline oracle checks the dial(id)<->accept(id) bijection, byte-exact payloads, no failure inside the window, and that every Dispense reaches a distinct server object of the requested name.",
    design_ref="DESIGN.md section 3, C06",
    note="Both ends in one process via plugin.TestPluginRPCConn; gaps kept >= 1 s inside the 5 s window.",
    technique="runtime monitoring: unique-token routing oracle over recorded accept/dial events, hook-point jitter, race detector"),
@@ -49,7 +49,7 @@ CHECKS = {
    technique="runtime monitoring: id/nonce echo oracle over brokered gRPC connections, hook-point jitter, race detector"),
  "C08": dict(
    category="exploration",
-   text="Runtime monitor: sequences of 20-50 (quick) / up to 200 (thorough) brokered connections established one at a time on a multiplexed in-process gRPC pair; per-side id counters (the same number is live in both directions), accept-first and dial-first, second connections to still-open listeners, slow server factories, an establishment whose retrying dialler is accepted between its timed-out knock and gRPC's reconnect; after every establishment the control connection is pinged, the main service called and every earlier brokered connection re-pinged; seeded delays at the hook points between knock-listener start, listener registration, knock acceptance and stream acceptance.",
+   text="Runtime monitor: sequences of 20-50 (quick) / up to 200 (thorough) brokered connections established one at a time on a multiplexed in-process gRPC pair; per-side id counters (the same number is live in both directions), accept-first and dial-first, second connections to still-open listeners, slow server factories, an establishment whose retrying dialler is accepted between its timed-out knock and gRPC's reconnect, listeners that are closed (once or twice) and whose id is accepted again at once; after every establishment the control connection is pinged, the main service called and every earlier brokered connection re-pinged; seeded delays at the hook points between knock-listener start, listener registration, knock acceptance and stream acceptance.",
    design_ref="DESIGN.md section 3, C08",
    note="Concurrent establishment is documented as unsupported and never generated.",
    technique="runtime monitoring: id/nonce echo + health re-check oracle over sequential multiplexed establishments, schedule perturbation at hook points"),
@@ -61,7 +61,7 @@ CHECKS = {
    technique="runtime monitoring: bounded-progress oracle over fault histories with hook-controlled line-up, goroutine-dump leak monitor"),
  "C13": dict(
    category="exploration",
-   text="Runtime monitor: ~620 (quick) / ~6k (thorough) (file, hash function, checksum) triples incl. every single-bit flip and every proper prefix of the digest; the target is a script that writes a launch marker as its first action; the oracle computes the digest independently and requires launched <=> checksum == H(file) and the corresponding error; plus histories of 2-4 launches of one path through one shared SecureConfig value with the file atomically replaced in between.",
+   text="Runtime monitor: ~620 (quick) / ~6k (thorough) (file, hash function, checksum) triples incl. every single-bit flip and every proper prefix of the digest; the target is a script that writes a launch marker as its first action; the oracle computes the digest independently and requires launched <=> checksum == H(file) and the corresponding error; plus histories of 2-4 launches of one path through one shared SecureConfig value with the file atomically replaced in between, and command paths through directory symlinks with '..' and file symlinks (hashed file must be the executed file).",
    design_ref="DESIGN.md section 3, C13",
    note="Digest computed with Go's crypto packages in the driver; launch observed through the marker file and exec.Cmd.Process.",
    technique="runtime monitoring: launch-marker oracle against an independently computed digest, exhaustive single-bit/prefix sub-spaces"),
@@ -97,19 +97,19 @@ CHECKS = {
    technique="runtime monitoring: intruder/impostor probes with positive controls against real AutoMTLS plugin processes"),
  "C16": dict(
    category="exploration",
-   text="Runtime monitor in which the harness is the host: the plugin binary is executed directly over the cookie x configuration product and over 13 shapes of the host's version list; raw stdout/stderr/exit status, the private sandbox listing, an immediate connect to the announced address, and strace's bind/listen/write order decide the property (no listener and status 1 without the cookie; exactly one well-formed line, nothing else on fd 1, listener ready before the line).",
+   text="Runtime monitor in which the harness is the host: the plugin binary is executed directly over the cookie x configuration product and over 13 shapes of the host's version list, also in processes that served once in test mode before; raw stdout/stderr/exit status, the private sandbox listing, an immediate connect to the announced address, and strace's bind/listen/write order decide the property (no listener and status 1 without the cookie; exactly one well-formed line, nothing else on fd 1, listener ready before the line).",
    design_ref="DESIGN.md section 3, C16",
    note="Needs a working strace -f for the syscall-order and transient-listener observations (self-tested at run start; recorded in the evidence as strace_available).",
    technique="runtime monitoring: external process/syscall monitor (strace) plus raw stdio and file-system observation"),
  "C14": dict(
    category="exploration",
-   text="Runtime monitor over the configuration cross product (576 cells + option conflicts + plugins that ignore PLUGIN_CLIENT_CERT + raw-line plugins; quick = seeded sample with every expectation kind, thorough = exhaustive): each cell launches a real plugin subprocess and records start error class, protocol in use, Ping, identity-tagged call, brokered callbacks in both directions, an 8 MiB response, Dispense of an unknown name, process state after refusals, hangs and panics; a classification table written from the statement (MUST_WORK / MUST_FAIL_AT_START(kind) / MUST_NOT_WORK / EITHER_BUT_CLEAN) is the oracle.",
+   text="Runtime monitor over the configuration cross product (576 cells + option conflicts + plugins that ignore PLUGIN_CLIENT_CERT + hosts that set AutoMTLS and a static TLSConfig together + raw-line plugins; quick = seeded sample with every expectation kind, thorough = exhaustive): each cell launches a real plugin subprocess and records start error class, protocol in use, Ping, identity-tagged call, brokered callbacks in both directions, an 8 MiB response, Dispense of an unknown name, process state after refusals, hangs and panics; a classification table written from the statement (MUST_WORK / MUST_FAIL_AT_START(kind) / MUST_NOT_WORK / EITHER_BUT_CLEAN) is the oracle.",
    design_ref="DESIGN.md section 3, C14",
    note="Documented-unsupported combinations (AutoMTLS+TLSProvider, AutoMTLS+reattach) are only required to be clean; static TLS is configured so that both sides can act as TLS server and client (brokered connections need both roles).",
    technique="runtime monitoring: classification-table oracle over the real configuration cross product (exhaustive in thorough)"),
  "C15": dict(
    category="exploration",
-   text="Runtime monitor: seeded histories of reattach (first and second generation), put/get through any client, concurrent put/get through two clients, kill through any client, reattach-after-death and reattach after a test-mode server stopped (re-used config object, second-generation config), against real plugin processes and in-process test-mode servers; oracles: reference {alive,dead} state machine with a sequential store, instance-id equality, /proc state, errors.Is(ErrProcessNotFound), CloseCh, and a porcupine per-key register linearizability check of the concurrent phase.",
+   text="Runtime monitor: seeded histories of reattach (first and second generation), put/get through any client, concurrent put/get through two clients, kill through any client, reattach-after-death and reattach after a test-mode server stopped (re-used config object, second-generation config), against real plugin processes and in-process test-mode servers; oracles: reference {alive,dead} state machine with a sequential store, instance-id equality, /proc state, errors.Is(ErrProcessNotFound), Exited() of every client of a killed plugin, CloseCh, and a porcupine per-key register linearizability check of the concurrent phase.",
    design_ref="DESIGN.md section 3, C15",
    note="Test-mode cases run in a host process of their own because the serving process is the host.",
    technique="runtime monitoring: reference state machine + porcupine register linearizability over recorded histories"),
